@@ -589,7 +589,7 @@ func stateKey(c Case, obs []Obs, calls int) string {
 
 // genBFS: every history up to maxDepth over the alphabet, up to equality of the implementation state reached
 // (a history is extended only if it reached a state not seen before; every transition out of every such state is emitted)
-func genBFS(e *emitter, cfg Cfg, ids, maxDepth, budget int) (states int, exhaustive bool) {
+func genBFS(e *emitter, cfg Cfg, ids, maxDepth, budget int, sym bool) (states int, exhaustive bool) {
 	alpha := alphabet(cfg, ids)
 	seen := map[string]bool{"empty": true}
 	frontier := [][]Op{nil}
@@ -601,6 +601,11 @@ func genBFS(e *emitter, cfg Cfg, ids, maxDepth, budget int) (states int, exhaust
 			for _, a := range alpha {
 				if budget > 0 && emitted >= budget {
 					return len(seen), false
+				}
+				if sym && a.K == "ev" && a.ID > maxID(h)+1 {
+					// the filter treats ids as opaque keys: histories that differ by a renaming of the ids are represented
+					// by the one that introduces ids in increasing order
+					continue
 				}
 				ops := append(append([]Op(nil), h...), a)
 				c := Case{Gen: "bfs", Cfg: cfg, Ops: ops}
@@ -622,6 +627,16 @@ func genBFS(e *emitter, cfg Cfg, ids, maxDepth, budget int) (states int, exhaust
 		frontier = next
 	}
 	return len(seen), exhaustive
+}
+
+func maxID(h []Op) int {
+	m := 0
+	for _, o := range h {
+		if o.K == "ev" && o.ID > m {
+			m = o.ID
+		}
+	}
+	return m
 }
 
 func genRandom(e *emitter, r *hc.Rand, n, maxLen, ids int) {
@@ -739,6 +754,7 @@ func main() {
 	bfsDepth := flag.Int("bfs-depth", 5, "BFS depth (calls and clock advances)")
 	bfsBudget := flag.Int("bfs-budget", 0, "max BFS cases per configuration (0 = unlimited)")
 	bfsIDs := flag.Int("bfs-ids", 3, "ids in the BFS alphabet")
+	bfsSym := flag.Bool("bfs-sym", false, "enumerate histories up to renaming of ids (ids introduced in increasing order)")
 	bfsFull := flag.Bool("bfs-full-configs", false, "all configurations (default: the core ones)")
 	nRandom := flag.Int("random", 300, "random histories")
 	randLen := flag.Int("random-len", 60, "max random history length")
@@ -805,11 +821,12 @@ func main() {
 			all := true
 			states := 0
 			for _, cfg := range configs(*bfsFull) {
-				s, ex := genBFS(e, cfg, *bfsIDs, *bfsDepth, *bfsBudget)
+				s, ex := genBFS(e, cfg, *bfsIDs, *bfsDepth, *bfsBudget, *bfsSym)
 				states += s
 				all = all && ex
 			}
 			summary["bfs_depth"] = *bfsDepth
+			summary["bfs_up_to_id_renaming"] = *bfsSym
 			summary["bfs_states"] = states
 			summary["bfs_configurations"] = len(configs(*bfsFull))
 			summary["bfs_exhaustive_to_requested_depth"] = all
